@@ -1,4 +1,5 @@
 import Teleport.Drv.C05
+import Teleport.Drv.C09
 import Teleport.Drv.C10
 import Teleport.Drv.C11
 import Teleport.Drv.C12
@@ -7,7 +8,7 @@ open Teleport.Drv
 
 /-- every case kind of the line protocol with its model handler (one list per property module). -/
 def allHandlers : List (String × (Fields → String)) :=
-  handlersC05 ++ handlersC10 ++ handlersC11 ++ handlersC12 ++ handlersC18
+  handlersC05 ++ handlersC09 ++ handlersC10 ++ handlersC11 ++ handlersC12 ++ handlersC18
 
 def handle (line : String) : String :=
   match (line.trimAscii.toString.splitOn " ").filter (· ≠ "") with
